@@ -37,6 +37,9 @@ pub struct Monitors {
     pub ledger: Vec<(Timer<SimId>, u64)>,
     /// true when the driver promises: every scheduled timer is delivered exactly once, none crafted
     pub exact_timers: bool,
+    /// set once a timer has been outstanding across >= 256 epoch changes (token width): the
+    /// premise of C13 no longer holds for this instance
+    pub token_wrapped: bool,
     // C15 / C16
     pub updates_model: UpdatesModel,
     pub custom_model: CustomModel,
@@ -121,6 +124,7 @@ impl Monitors {
             epochs: 0,
             ledger: Vec::new(),
             exact_timers: false,
+            token_wrapped: false,
             updates_model: UpdatesModel::new(),
             custom_model: CustomModel::new(setup.hcfg),
             model_enabled: true,
@@ -178,7 +182,13 @@ impl Monitors {
         }
         let _ = delivered_genuine;
 
-        if self.exact_timers {
+        if self.ledger.iter().any(|(t, e)| is_periodic_or_probe(t) && self.epochs - *e >= 250) {
+            if !self.token_wrapped {
+                stats.inc("c13_premise_broken_token_wrapped");
+            }
+            self.token_wrapped = true;
+        }
+        if self.exact_timers && !self.token_wrapped {
             self.check_timer_ledger(post, at, out, stats);
         }
 
